@@ -634,6 +634,7 @@ func (i *Interp) runPath(harness *ssa.Function, item workItem) {
 	i.symSched = false
 	i.preemptBudget = 0
 	i.lateBudget, i.lateVictim, i.lateLeft = 0, nil, 0
+	i.fpBitsSeq = 0
 	i.memfs, i.fsFiles, i.fsHandles = false, map[string]*memFile{}, map[*value]*memHandle{}
 	i.switches = 0
 	i.pendingAbort = nil
